@@ -33,7 +33,8 @@ POSITIONS = ["first", "middle", "last", "only-in-block", "under-h1", "under-h2"]
 MENTIONS = ["none", "earlier-note", "later-note", "earlier-zid-link"]
 OWN_TAGS = ["none", "same-as-inherited", "extends-inherited"]
 DESTS = ["missing-no-template", "missing-template", "header-only", "header-blank", "block-nl", "block-no-nl",
-         "block-two-blank", "block-then-section", "ends-with-section-header", "mentions-zid"]
+         "block-two-blank", "block-then-section", "ends-with-section-header", "mentions-zid",
+         "ends-with-section-header-no-nl", "missing-template-ending-in-section"]
 MARKERS = [None, "x", "~"]
 
 
@@ -93,12 +94,20 @@ def build_dest(kind):
         return f"# Dest page\n\n- 240201#D1 dest note one\n\n{H1R} Dsec\n\n- 240202#D2 in section\n", {}
     if kind == "ends-with-section-header":
         return f"# Dest page\n\n- 240201#D1 dest note one\n\n{H1R} Dsec\n", {}
+    if kind == "ends-with-section-header-no-nl":
+        return f"# Dest page\n\n- 240201#D1 dest note one\n\n- 240202#D2 second block\n\n{H1R} Later +someday", {}
+    if kind == "missing-template-ending-in-section":
+        return None, {r"dest\.zo": "dest2.zot"}
     if kind == "mentions-zid":
         return f"# Dest page\n\n- 240201#D1 dest note about {MZ} and more\n", {}
     raise H.HarnessError(kind)
 
 
 TEMPLATE = "# template header\n\n## Dest from template\n\n- 240203#T1 template note\n"
+# renders (jinja drops the final newline) to a page whose last line is a section header
+TEMPLATE2 = f"# template header\n\n## Dest from template two\n\n- 240203#T1 template note\n\n{H1R} @pomodoro\n"
+RENDERED = {"dest.zot": "# Dest from template\n\n- 240203#T1 template note",
+            "dest2.zot": f"# Dest from template two\n\n- 240203#T1 template note\n\n{H1R} @pomodoro"}
 
 
 def _notes_by_zid(text):
@@ -127,7 +136,7 @@ def _run_case(ctx, case) -> F.Outcome:
     form, pos, mention, own, dkind, marker = case
     src_text, note_lines = build_source(form, pos, mention, own)
     dest_text, tmap = build_dest(dkind)
-    files = {"src.zo": src_text, "dest.zot": TEMPLATE}
+    files = {"src.zo": src_text, "dest.zot": TEMPLATE, "dest2.zot": TEMPLATE2}
     # a page whose last item has no trailing newline is not a valid page, so it
     # cannot be indexed; `note move` only needs the file, which is put in place
     # after the index is built
@@ -148,7 +157,7 @@ def _run_case(ctx, case) -> F.Outcome:
         if dest_text is not None:
             before_dst, _ = _notes_by_zid(dest_text if not late_dest else dest_text + "\n")
         elif tmap:
-            before_dst, _ = _notes_by_zid("# Dest from template\n\n- 240203#T1 template note\n")
+            before_dst, _ = _notes_by_zid(RENDERED[list(tmap.values())[0]] + "\n")
         if before_src is None or before_dst is None:
             raise H.HarnessError("c10 setup: generated page does not compile")
         cfg = zd.parent / "cfg.yml"
@@ -178,7 +187,7 @@ def _run_case(ctx, case) -> F.Outcome:
                 if after.get("src.zo") != want_src:
                     problems.append(("source-not-minus-exactly-the-note", {"expected": want_src, "observed": after.get("src.zo")}))
                 # destination: old lines preserved in order, note inserted once, contiguously
-                base_dest = dest_text if dest_text is not None else "# Dest from template\n\n- 240203#T1 template note\n"
+                base_dest = dest_text if dest_text is not None else RENDERED[list(tmap.values())[0]]
                 dst = after.get("dest.zo")
                 if dst is None:
                     problems.append(("destination-missing-after-move", {}))
@@ -321,7 +330,8 @@ def run(ctx: F.Ctx):
             "tags that start with the inherited names} x 10 "
             "destinations (missing without / with a matching template, header only, header + blank, "
             "block ending in newline / without newline / with two blank lines, block then section, "
-            "last line a section header, a note mentioning the ZID) x marker {none, x, ~}; quick "
+            "last line a section header with and without trailing newline, a template whose rendering "
+            "ends in a section header, a note mentioning the ZID) x marker {none, x, ~}; quick "
             "covers every value of every dimension in rotation, thorough the full product. Oracle: "
             "line algebra on both files, then recompilation of both pages (same set of notes, "
             "requested kind, body = old body + inserted metadata words, tags/properties superset)."
